@@ -63,6 +63,7 @@ def catalog():
         "q0": ("q0", 18, "Fq of every amplitude model interpreted symbolically at q = 0: F1^2 = F2", __import__("sa.rules.extra3", fromlist=["x"]).rule_c14_q0),
         "tablebounds": ("tablebounds", 40, "loops of model code over constant tables run 0 <= i < N <= table length, step +1", __import__("sa.rules.extra3", fromlist=["x"]).rule_tablebounds),
         "f2i": ("f2i", 61, "no implicit floating-to-integral conversion in model code (except parameters that are integers at every call site)", __import__("sa.rules.extra3", fromlist=["x"]).rule_f2i),
+        "definite-init": ("definite-init", 40, "scalar locals of model code are assigned on every path before they are read", __import__("sa.rules.extra3", fromlist=["x"]).rule_definit),
         "order-select": ("order-select", 3, "helpers that select smallest / middle / largest of their inputs give the same value for every assignment of ranks to inputs", __import__("sa.rules.extra3", fromlist=["x"]).rule_c14_ordersel),
         "mode-order": ("mode-order", 20, "a half diagonal is at least as long as the half sides / radius it spans (all models)", __import__("sa.rules.extra3", fromlist=["x"]).rule_c14_modeorder),
         "magloop": ("magloop", 250, "spin-channel loop of every magnetic kernel: slots, weight threshold, q = 0 guard threshold (all magnetic units)", __import__("sa.rules.c06", fromlist=["x"]).make_c_rule("R-C06-loop")),
